@@ -12,7 +12,10 @@ TEXT = {
                    "concurrent clause: C02_conc_stayer_gets_each_relay_once (Model/Relay.lean: a relay is one critical section under the participants lock; a member that stays gets every relay exactly once "
                    "whatever departures interleave); beyond that model it is explored, not proved (every interleaving with at most two preemptions of 2-3 concurrent requests at lock granularity on the real "
                    "handlers: explained by a serial order of the model, or else every accepted change relayed exactly once to every member that stays); the "
-                   "per-sender order clause is measured over real sockets (wire scenario order).",
+                   "per-sender order clause is measured over real sockets (wire scenario order). Its parenthesis - updates that wait for a frame keep their order per entity - is FALSE of the code "
+                   "and recorded as finding F40: the scheduler releases all waiting pose updates before all waiting component updates (C02_deferred_updates_of_one_entity_reordered is the "
+                   "kernel-checked witness on the scheduler model; corpus/F40-*.hist the same history on the real handlers; the check prints KNOWN-FINDING for exactly that situation, monitor "
+                   "cause deferred-updates-of-an-entity-reordered).",
              note=_std_note, technique=_tech),
  'C04': dict(level="The protocol's decision table is written out as Spec.expectedAnswer; C04_core_answer / _action_answer / _asset_answer / _dagaz_answer prove that every "
                    "request for which the table defines an answer gets exactly that one answer, to the requester (all other deliveries are relays); "
